@@ -19,6 +19,9 @@ Section DepGraphProofs.
   Notation mem := (ObjSet.mem eqb).
   Notation all_edges := (all_edges eqb idof).
   Notation dep_edges := (dep_edges eqb).
+  Notation mut_edges := (mut_edges eqb).
+  Notation depends_on_errors := (depends_on_errors eqb).
+  Notation mutation_errors := (mutation_errors eqb).
   Notation crd_edges := (crd_edges idof).
   Notation ns_edges := (ns_edges idof).
   Notation crd_lookup := (crd_lookup idof).
@@ -59,7 +62,7 @@ Section DepGraphProofs.
     unfold DepGraph.f_ns. destruct (_ && _); [|discriminate]. intros H. inversion H. reflexivity.
   Qed.
 
-  (* ---- membership in the three edge lists -------------------------------- *)
+  (* ---- membership in the four edge lists --------------------------------- *)
   Lemma crd_edges_In objs v w :
     In (v, w) (crd_edges objs) <->
     exists o, In o objs /\ oid o = v /\
@@ -122,9 +125,45 @@ Section DepGraphProofs.
       apply dep_edges_of_In. intuition.
   Qed.
 
+  (* addApplyTimeMutationEdges, one object: an edge to every source reference
+     that is in the object set (a repeated reference contributes nothing new) *)
+  Lemma mut_edges_of_In from l : forall srcs seen v w,
+    In (v, w) (fst (mut_edges_of eqb from l srcs seen)) <->
+    v = from /\ In w srcs /\ ~ In w seen /\ In w l.
+  Proof.
+    induction srcs as [|d t IH]; intros seen v w; simpl; [tauto|].
+    destruct (mem d seen) eqn:Ms.
+    - apply mem_In in Ms. rewrite (IH seen v w).
+      split; [tauto|]. intros [H1 [[H2|H2] [H3 H4]]]; [subst; contradiction|tauto].
+    - apply (mem_false V eqb eqb_spec) in Ms.
+      destruct (mem d l) eqn:Ml; simpl.
+      + apply mem_In in Ml. specialize (IH (d :: seen) v w).
+        destruct (mut_edges_of eqb from l t (d :: seen)) as [es e]. simpl in *. rewrite IH.
+        split.
+        * intros [H|H]; [inversion H; subst; tauto|]. intuition.
+        * intros [H1 [[H2|H2] [H3 H4]]]; [left; subst; reflexivity|].
+          destruct (GraphProofs.eq_dec V eqb eqb_spec d w) as [E|E]; [left; subst; reflexivity|].
+          right. intuition.
+      + apply (mem_false V eqb eqb_spec) in Ml. specialize (IH (d :: seen) v w).
+        destruct (mut_edges_of eqb from l t (d :: seen)) as [es e]. simpl in *. rewrite IH.
+        split; [intuition|]. intros [H1 [[H2|H2] [H3 H4]]]; [subst; contradiction|].
+        intuition. subst. contradiction.
+  Qed.
+
+  Lemma mut_edges_In objs v w :
+    In (v, w) (mut_edges objs) <->
+    exists o l, In o objs /\ oid o = v /\ omuts o = Muts l /\ In w l /\ In w (ids objs).
+  Proof.
+    unfold DepGraph.mut_edges. rewrite in_flat_map. unfold obj_mut_edges. split.
+    - intros [o [Ho H]]. destruct (omuts o) as [| |l] eqn:E; simpl in H; try contradiction.
+      apply mut_edges_of_In in H. exists o, l. intuition.
+    - intros [o [l [Ho [Hv [E [Hw Hi]]]]]]. exists o. split; [exact Ho|]. rewrite E.
+      apply mut_edges_of_In. intuition.
+  Qed.
+
   Lemma all_edges_in_ids objs v w : dep_rel objs v w -> In v (ids objs) /\ In w (ids objs).
   Proof.
-    unfold dep_rel, DepGraph.all_edges. rewrite !in_app_iff. intros [H|[H|H]].
+    unfold dep_rel, DepGraph.all_edges. rewrite !in_app_iff. intros [H|[H|[H|H]]].
     - apply crd_edges_In in H. destruct H as [o [Ho [Hv H]]]. split.
       + subst v. apply in_map. exact Ho.
       + apply providers_In in H. destruct H as [o' [Ho' Hf]].
@@ -135,14 +174,44 @@ Section DepGraphProofs.
         apply f_ns_oid in Hf. subst w. apply in_map. exact Ho'.
     - apply dep_edges_In in H. destruct H as [o [l [Ho [Hv [_ [_ Hi]]]]]]. split; [|exact Hi].
       subst v. apply in_map. exact Ho.
+    - apply mut_edges_In in H. destruct H as [o [l [Ho [Hv [_ [_ Hi]]]]]]. split; [|exact Hi].
+      subst v. apply in_map. exact Ho.
   Qed.
 
   (* the explicit part of the relation, readable *)
   Lemma dep_rel_explicit objs o l w :
     In o objs -> odeps o = Deps l -> In w l -> In w (ids objs) -> dep_rel objs (oid o) w.
   Proof.
-    intros Ho E Hw Hi. unfold dep_rel, DepGraph.all_edges. rewrite !in_app_iff. right. right.
+    intros Ho E Hw Hi. unfold dep_rel, DepGraph.all_edges. rewrite !in_app_iff. right. right. left.
     apply dep_edges_In. exists o, l. intuition.
+  Qed.
+
+  (* a mutation source that is part of the object set is a dependency *)
+  Lemma dep_rel_mutation objs o l w :
+    In o objs -> omuts o = Muts l -> In w l -> In w (ids objs) -> dep_rel objs (oid o) w.
+  Proof.
+    intros Ho E Hw Hi. unfold dep_rel, DepGraph.all_edges. rewrite !in_app_iff. right. right. right.
+    apply mut_edges_In. exists o, l. intuition.
+  Qed.
+
+  (* the whole relation, readable: v depends on w exactly when v is an object of
+     the set and w is (1) a CRD object of the set whose spec defines v's
+     group/kind, or (2) a Namespace-kind object of the set named like v's
+     namespace, or (3) a member of the set referenced by a parsed depends-on
+     annotation of (an object with id) v, or (4) a member of the set that is
+     the source of a substitution in a parsed apply-time-mutation annotation
+     of (an object with id) v *)
+  Lemma dep_rel_char objs v w :
+    dep_rel objs v w <->
+    (exists o, In o objs /\ oid o = v /\
+               In w (crd_lookup objs (gk_string (grp (idof v)) (knd (idof v)))))
+    \/ (exists o, In o objs /\ oid o = v /\ ns (idof v) <> EmptyString /\
+                  In w (ns_lookup objs (ns (idof v))))
+    \/ (exists o l, In o objs /\ oid o = v /\ odeps o = Deps l /\ In w l /\ In w (ids objs))
+    \/ (exists o l, In o objs /\ oid o = v /\ omuts o = Muts l /\ In w l /\ In w (ids objs)).
+  Proof.
+    unfold dep_rel, DepGraph.all_edges. rewrite !in_app_iff.
+    rewrite crd_edges_In, ns_edges_In, dep_edges_In, mut_edges_In. tauto.
   Qed.
 
   (* ---- permutation invariance of the relation ---------------------------- *)
@@ -174,7 +243,163 @@ Section DepGraphProofs.
     assert (E3 : In (v, w) (dep_edges objs) <-> In (v, w) (dep_edges objs')).
     { rewrite !dep_edges_In. split; intros [o [l [Ho [Hv [E [Hw Hi]]]]]]; exists o, l;
         (split; [apply PI; exact Ho|]); (split; [exact Hv|split; [exact E|split; [exact Hw|apply II; exact Hi]]]). }
+    assert (E4 : In (v, w) (mut_edges objs) <-> In (v, w) (mut_edges objs')).
+    { rewrite !mut_edges_In. split; intros [o [l [Ho [Hv [E [Hw Hi]]]]]]; exists o, l;
+        (split; [apply PI; exact Ho|]); (split; [exact Hv|split; [exact E|split; [exact Hw|apply II; exact Hi]]]). }
     tauto.
+  Qed.
+
+  (* ---- which objects DependencyGraph reports as invalid ------------------- *)
+  (* the depends-on annotation of o is rejected: it does not parse, or it names
+     a reference twice, or it names an object outside the set *)
+  Definition dep_annot_bad (objs : list obj) (o : obj) : Prop :=
+    odeps o = BadAnnot
+    \/ exists l, odeps o = Deps l /\ (~ NoDup l \/ exists w, In w l /\ ~ In w (ids objs)).
+  (* the apply-time-mutation annotation of o is rejected: it does not parse, or
+     it names a source outside the set (a repeated source is NOT an error) *)
+  Definition mut_annot_bad (objs : list obj) (o : obj) : Prop :=
+    omuts o = BadMut
+    \/ exists l, omuts o = Muts l /\ exists w, In w l /\ ~ In w (ids objs).
+
+  Let In_dec (x : V) (l : list V) : In x l \/ ~ In x l.
+  Proof.
+    destruct (mem x l) eqn:E; [left; apply mem_In; exact E|right; apply (mem_false V eqb eqb_spec); exact E].
+  Qed.
+
+  Lemma dep_edges_of_err from l : forall deps seen,
+    snd (dep_edges_of eqb from l deps seen) = true <->
+    (exists w, In w deps /\ In w seen) \/ ~ NoDup deps \/ (exists w, In w deps /\ ~ In w l).
+  Proof.
+    induction deps as [|d t IH]; intros seen; simpl.
+    - split; [discriminate|]. intros [[w [[] _]]|[H|[w [[] _]]]]. exfalso. apply H. constructor.
+    - destruct (mem d seen) eqn:Ms.
+      + apply mem_In in Ms. destruct (dep_edges_of eqb from l t seen) as [es e]. simpl.
+        split; [|reflexivity]. intros _. left. exists d. split; [left; reflexivity|exact Ms].
+      + apply (mem_false V eqb eqb_spec) in Ms. destruct (mem d l) eqn:Ml; simpl.
+        * apply mem_In in Ml. specialize (IH (d :: seen)).
+          destruct (dep_edges_of eqb from l t (d :: seen)) as [es e]. simpl in *. rewrite IH.
+          rewrite NoDup_cons_iff. split.
+          -- intros [[w [Hw [Hd|Hs]]]|[Hn|[w [Hw He]]]].
+             ++ subst w. right. left. tauto.
+             ++ left. exists w. tauto.
+             ++ right. left. tauto.
+             ++ right. right. exists w. tauto.
+          -- intros [[w [[Hw|Hw] Hs]]|[Hn|[w [[Hw|Hw] He]]]].
+             ++ subst w. contradiction.
+             ++ left. exists w. simpl. tauto.
+             ++ destruct (In_dec d t) as [Hi|Hi].
+                ** left. exists d. simpl. tauto.
+                ** right. left. tauto.
+             ++ subst w. contradiction.
+             ++ right. right. exists w. tauto.
+        * apply (mem_false V eqb eqb_spec) in Ml.
+          destruct (dep_edges_of eqb from l t (d :: seen)) as [es e]. simpl.
+          split; [|reflexivity]. intros _. right. right. exists d. split; [left; reflexivity|exact Ml].
+  Qed.
+
+  Lemma mut_edges_of_err from l : forall srcs seen,
+    snd (mut_edges_of eqb from l srcs seen) = true <->
+    exists w, In w srcs /\ ~ In w seen /\ ~ In w l.
+  Proof.
+    induction srcs as [|d t IH]; intros seen; simpl.
+    - split; [discriminate|]. intros [w [[] _]].
+    - destruct (mem d seen) eqn:Ms.
+      + apply mem_In in Ms. rewrite (IH seen). split.
+        * intros [w [Hw H]]. exists w. tauto.
+        * intros [w [[Hw|Hw] [Hs He]]]; [subst w; contradiction|]. exists w. tauto.
+      + apply (mem_false V eqb eqb_spec) in Ms. destruct (mem d l) eqn:Ml; simpl.
+        * apply mem_In in Ml. specialize (IH (d :: seen)).
+          destruct (mut_edges_of eqb from l t (d :: seen)) as [es e]. simpl in *. rewrite IH. split.
+          -- intros [w [Hw [Hs He]]]. exists w. tauto.
+          -- intros [w [[Hw|Hw] [Hs He]]]; [subst w; contradiction|]. exists w.
+             split; [exact Hw|split; [|exact He]]. intros [E|E]; [subst w; contradiction|contradiction].
+        * apply (mem_false V eqb eqb_spec) in Ml.
+          destruct (mut_edges_of eqb from l t (d :: seen)) as [es e]. simpl.
+          split; [|reflexivity]. intros _. exists d. split; [left; reflexivity|tauto].
+  Qed.
+
+  Lemma obj_dep_err objs o :
+    snd (obj_dep_edges eqb (ids objs) o) = true <-> dep_annot_bad objs o.
+  Proof.
+    unfold obj_dep_edges, dep_annot_bad. destruct (odeps o) as [| |l]; simpl.
+    - split; [discriminate|]. intros [H|[l [H _]]]; discriminate.
+    - split; [intros _; left; reflexivity|reflexivity].
+    - rewrite dep_edges_of_err. split.
+      + intros [[w [_ []]]|H]. right. exists l. split; [reflexivity|exact H].
+      + intros [H|[l' [E H]]]; [discriminate|]. inversion E. subst l'. right. exact H.
+  Qed.
+
+  Lemma obj_mut_err objs o :
+    snd (obj_mut_edges eqb (ids objs) o) = true <-> mut_annot_bad objs o.
+  Proof.
+    unfold obj_mut_edges, mut_annot_bad. destruct (omuts o) as [| |l]; simpl.
+    - split; [discriminate|]. intros [H|[l [H _]]]; discriminate.
+    - split; [intros _; left; reflexivity|reflexivity].
+    - rewrite mut_edges_of_err. split.
+      + intros [w [Hw [_ He]]]. right. exists l. split; [reflexivity|]. exists w. tauto.
+      + intros [H|[l' [E [w [Hw He]]]]]; [discriminate|]. inversion E. subst l'. exists w. simpl. tauto.
+  Qed.
+
+  Lemma depends_on_errors_In objs v :
+    In v (depends_on_errors objs) <-> exists o, In o objs /\ oid o = v /\ dep_annot_bad objs o.
+  Proof.
+    unfold DepGraph.depends_on_errors. rewrite in_flat_map. fold (ids objs). split.
+    - intros [o [Ho H]]. destruct (snd (obj_dep_edges eqb (ids objs) o)) eqn:E; [|destruct H].
+      destruct H as [<-|[]]. exists o. split; [exact Ho|split; [reflexivity|apply obj_dep_err; exact E]].
+    - intros [o [Ho [Hv B]]]. exists o. split; [exact Ho|].
+      apply obj_dep_err in B. rewrite B. left. exact Hv.
+  Qed.
+
+  Lemma mutation_errors_In objs v :
+    In v (mutation_errors objs) <-> exists o, In o objs /\ oid o = v /\ mut_annot_bad objs o.
+  Proof.
+    unfold DepGraph.mutation_errors. rewrite in_flat_map. fold (ids objs). split.
+    - intros [o [Ho H]]. destruct (snd (obj_mut_edges eqb (ids objs) o)) eqn:E; [|destruct H].
+      destruct H as [<-|[]]. exists o. split; [exact Ho|split; [reflexivity|apply obj_mut_err; exact E]].
+    - intros [o [Ho [Hv B]]]. exists o. split; [exact Ho|].
+      apply obj_mut_err in B. rewrite B. left. exact Hv.
+  Qed.
+
+  (* an id is named by DependencyGraph's error iff an object with that id has a
+     rejected depends-on annotation or a rejected apply-time-mutation annotation *)
+  Lemma dep_errors_In objs v :
+    In v (dep_errors eqb objs) <->
+    exists o, In o objs /\ oid o = v /\ (dep_annot_bad objs o \/ mut_annot_bad objs o).
+  Proof.
+    unfold DepGraph.dep_errors. rewrite in_app_iff, depends_on_errors_In, mutation_errors_In. split.
+    - intros [[o [Ho [Hv B]]]|[o [Ho [Hv B]]]]; exists o; tauto.
+    - intros [o [Ho [Hv [B|B]]]]; [left|right]; exists o; tauto.
+  Qed.
+
+  (* the error list is the depends-on pass followed by the mutation pass, each
+     in object order *)
+  Lemma dep_errors_order objs :
+    dep_errors eqb objs =
+    map oid (filter (fun o => snd (obj_dep_edges eqb (ids objs) o)) objs)
+    ++ map oid (filter (fun o => snd (obj_mut_edges eqb (ids objs) o)) objs).
+  Proof.
+    unfold DepGraph.dep_errors, DepGraph.depends_on_errors, DepGraph.mutation_errors. fold (ids objs).
+    f_equal.
+    - generalize (ids objs) as I. intros I. induction objs as [|o r IH]; simpl; [reflexivity|].
+      rewrite IH. destruct (snd (obj_dep_edges eqb I o)); reflexivity.
+    - generalize (ids objs) as I. intros I. induction objs as [|o r IH]; simpl; [reflexivity|].
+      rewrite IH. destruct (snd (obj_mut_edges eqb I o)); reflexivity.
+  Qed.
+
+  (* no annotation error at all exactly when every object's annotations are accepted *)
+  Lemma dep_errors_nil objs :
+    dep_errors eqb objs = [] <->
+    forall o, In o objs -> ~ dep_annot_bad objs o /\ ~ mut_annot_bad objs o.
+  Proof.
+    split.
+    - intros E o Ho. split; intros B.
+      + assert (H : In (oid o) (dep_errors eqb objs)) by (apply dep_errors_In; exists o; tauto).
+        rewrite E in H. destruct H.
+      + assert (H : In (oid o) (dep_errors eqb objs)) by (apply dep_errors_In; exists o; tauto).
+        rewrite E in H. destruct H.
+    - intros H. destruct (dep_errors eqb objs) as [|x r] eqn:E; [reflexivity|]. exfalso.
+      assert (Hx : In x (dep_errors eqb objs)) by (rewrite E; left; reflexivity).
+      apply dep_errors_In in Hx. destruct Hx as [o [Ho [_ B]]]. destruct (H o Ho). tauto.
   Qed.
 
   (* ---- the dependency graph ---------------------------------------------- *)
@@ -317,6 +542,58 @@ Section DepGraphProofs.
       destruct Hl as [l' [<- Hl']]. apply (isort_sorted V ltb ltb_trans ltb_total). apply ND. exact Hl'.
     - rewrite (cyc_ids_err e s E2).
       apply (sa_err_sorted V eqb eqb_spec ltb ltb_trans ltb_total _ _ _ (dg_wf objs) SA).
+  Qed.
+
+  (* the annotation errors of SortObjs *)
+  Lemma objs_bad objs s :
+    sort_objs objs = Some s ->
+    forall v, In v (s_bad s) <->
+              exists o, In o objs /\ oid o = v /\ (dep_annot_bad objs o \/ mut_annot_bad objs o).
+  Proof.
+    intros H v. destruct (sort_objs_char objs s H) as [L [e [_ [_ [_ E3]]]]].
+    rewrite E3. apply dep_errors_In.
+  Qed.
+
+  (* ... reported pass by pass: first the objects rejected by addDependsOnEdges,
+     then the objects rejected by addApplyTimeMutationEdges; a failing first
+     pass does not hide the second *)
+  Lemma objs_bad_passes objs s :
+    sort_objs objs = Some s ->
+    s_bad s = depends_on_errors objs ++ mutation_errors objs
+    /\ (forall v, In v (depends_on_errors objs) <-> exists o, In o objs /\ oid o = v /\ dep_annot_bad objs o)
+    /\ (forall v, In v (mutation_errors objs) <-> exists o, In o objs /\ oid o = v /\ mut_annot_bad objs o).
+  Proof.
+    intros H. destruct (sort_objs_char objs s H) as [L [e [_ [_ [_ E3]]]]].
+    split; [exact E3|]. split; intros v; [apply depends_on_errors_In|apply mutation_errors_In].
+  Qed.
+
+  Lemma objs_no_bad objs s :
+    sort_objs objs = Some s ->
+    (s_bad s = [] <-> forall o, In o objs -> ~ dep_annot_bad objs o /\ ~ mut_annot_bad objs o).
+  Proof.
+    intros H. destruct (sort_objs_char objs s H) as [L [e [_ [_ [_ E3]]]]].
+    rewrite E3. apply dep_errors_nil.
+  Qed.
+
+  (* the SET of reported ids does not depend on the order of the object list
+     (the list order does: it follows the object list, pass by pass) *)
+  Lemma objs_bad_perm objs objs' s s' :
+    Permutation objs objs' ->
+    sort_objs objs = Some s -> sort_objs objs' = Some s' ->
+    forall v, In v (s_bad s) <-> In v (s_bad s').
+  Proof.
+    intros P H H' v. rewrite (objs_bad objs s H), (objs_bad objs' s' H').
+    assert (PI : forall o, In o objs <-> In o objs')
+      by (intros o; split; apply Permutation_in; [exact P|symmetry; exact P]).
+    assert (II : forall x, In x (ids objs) <-> In x (ids objs'))
+      by (intros x; split; apply Permutation_in; [apply ids_perm; exact P|symmetry; apply ids_perm; exact P]).
+    assert (D : forall o, dep_annot_bad objs o <-> dep_annot_bad objs' o).
+    { intros o. unfold dep_annot_bad. split; (intros [B|[l [E [B|[w [Hw He]]]]]]; [left; exact B|right; exists l; tauto|]);
+        right; exists l; (split; [exact E|]); right; exists w; (split; [exact Hw|]); rewrite II in *; exact He. }
+    assert (M : forall o, mut_annot_bad objs o <-> mut_annot_bad objs' o).
+    { intros o. unfold mut_annot_bad. split; (intros [B|[l [E [w [Hw He]]]]]; [left; exact B|]);
+        right; exists l; (split; [exact E|]); exists w; (split; [exact Hw|]); rewrite II in *; exact He. }
+    split; intros [o [Ho [Hv B]]]; exists o; rewrite PI in *; rewrite D, M in *; tauto.
   Qed.
 
   Lemma objs_perm_inv objs objs' s s' :
